@@ -362,7 +362,7 @@ func c02Make(m int, idx int64, method bool, mode int) (*zn.Program, map[string]b
 	b := &c02Builder{feat: map[string]bool{}, stray: mode == 1, bare: mode == 2}
 	stray := mode == 1
 	pre := []zn.Stmt{c02Tracer,
-		zn.Decl{Pairs: []zn.DeclPair{{Names: []string{"典"}, Val: zn.Dict{Pairs: []zn.DictPair{{Key: "丙", Val: zn.Num{Lit: "0"}}, {Key: "乙", Val: zn.Num{Lit: "1"}}, {Key: "甲", Val: zn.Num{Lit: "2"}}, {Key: "丁", Val: zn.Num{Lit: "3"}}}}}}},
+		zn.Decl{Pairs: []zn.DeclPair{{Names: []string{"典"}, Val: zn.Dict{Pairs: []zn.DictPair{{Key: "丙", Val: zn.Num{Lit: "0"}}, {Key: "乙", Val: zn.Num{Lit: "1"}}, {Key: "甲", Val: zn.Num{Lit: "2"}}, {Key: "丁", Val: zn.Num{Lit: "3"}}, {Key: "乙", Val: zn.Num{Lit: "4"}}}}}}},
 		zn.ExprStmt{E: zn.MCall{Root: zn.Var{Name: "典"}, Chain: []zn.Call{{Name: "移除", Args: []zn.Expr{zn.Str{Val: "丙"}}}}}},
 	}
 	if stray {
@@ -442,7 +442,7 @@ func init() {
 	mc.Register(&mc.Check{
 		ID:    "C02",
 		Level: "exploration",
-		Rule:  "E1 exhaustive by rank/unrank: every statement tree with <= k statement nodes and nesting <= 3 over {输出, expression, 结束循环, 继续循环 (inside loops only), 如果 (如果 | 如果/否则 | 如果/再如 | 如果/再如/否则, every truth assignment), 每当 (2 passes via a dedicated counter; 2 passes via a bare flag variable that the body clears), 遍历 over [10,20] with 1/2/0 variables, over a dictionary with 2 variables (four entries written unsorted, the first removed again), over an empty list}; every expression statement is followed by a method definition (hoisted, so the expression stays final); the two-variable list loop changes its index variable in place (自增) and traces it; a trace statement is planted before every statement and at the end of every block; each tree is run as program body and as method body; every tree of <= 4 (5 thorough) nodes that contains 结束循环 / 继续循环 is run again with each of them moved into a callee (a method whose own body executes the loop statement outside any loop of its own, called through a wrapper that handles the exception): it must act on no loop of the caller; every tree of <= 4 nodes (5 nodes: those with a 如果/再如 chain without 否则) with a block that ends with a compound statement is run again without the traces at block ends (a nested chain directly followed by the outer chain's 再如 / 否则). Distinct by construction; non-trivial = contains at least one compound statement.",
+		Rule:  "E1 exhaustive by rank/unrank: every statement tree with <= k statement nodes and nesting <= 3 over {输出, expression, 结束循环, 继续循环 (inside loops only), 如果 (如果 | 如果/否则 | 如果/再如 | 如果/再如/否则, every truth assignment), 每当 (2 passes via a dedicated counter; 2 passes via a bare flag variable that the body clears), 遍历 over [10,20] with 1/2/0 variables, over a dictionary with 2 variables (four entries written unsorted, one key written twice in the literal, the first entry removed again), over an empty list}; every expression statement is followed by a method definition (hoisted, so the expression stays final); the two-variable list loop changes its index variable in place (自增) and traces it; a trace statement is planted before every statement and at the end of every block; each tree is run as program body and as method body; every tree of <= 4 (5 thorough) nodes that contains 结束循环 / 继续循环 is run again with each of them moved into a callee (a method whose own body executes the loop statement outside any loop of its own, called through a wrapper that handles the exception): it must act on no loop of the caller; every tree of <= 4 nodes (5 nodes: those with a 如果/再如 chain without 否则) with a block that ends with a compound statement is run again without the traces at block ends (a nested chain directly followed by the outer chain's 再如 / 否则). Distinct by construction; non-trivial = contains at least one compound statement.",
 		Assumptions: []string{
 			"reference interpreter written from manual ch.7/8 is the oracle (result + ordered trace)",
 			"the program result is compared only when the statement defines it (an 输出 ran, or the last top-level statement is an expression)",
